@@ -4,6 +4,7 @@ From Coq Require Import ZArith NArith Bool List.
 From ZV.Gen Require Import Gen_Sizes.
 From ZV.Index Require Import Window Overflow.
 From ZV.Det Require Import ResetModel CwkspClean RowSalt OptStats MtPartition StreamPartition BlockState DictMode ApiState RawFallback.
+From ZV.Det Require StableIn.
 Import ListNotations.
 Local Open Scope Z_scope.
 
@@ -134,8 +135,9 @@ Definition d_dict_mode (a : list Z) : list Z :=
 
 (* 13: the session-level API state after every call (Det/ApiState.v).  args: triples (code a b):
        1 ASet auth=a p=b | 2 ASetAll p=a | 3 ALoad d=a | 4 ARefCDict (a = 0: NULL, else Some (a, b)) | 5 APrefix d=a | 6 APledge
-       | 7 AResetSession | 8 AResetParams | 9 AStreamCall | 10 AStreamEnd | 11 ACompress2 | 12 ASimple | 13 AGenSeq
-   -> per call: accepted, stage != init, localDict.dict, localDict.cdict, cctx->cdict, prefixDict.dict, collectSequences *)
+       | 7 AResetSession | 8 AResetParams | 9 AStreamCall | 10 AStreamEnd | 11 ACompress2 | 12 ASimple | 13 AGenSeq | 14 ACopyInto (round 3)
+   -> per call: accepted, stage != init, localDict.dict, localDict.cdict, cctx->cdict, prefixDict.dict, collectSequences,
+      bufferedPolicy == buffered (round 3) *)
 Fixpoint triples (l : list Z) : list (Z * Z * Z) :=
   match l with a :: b :: c :: t => (a, b, c) :: triples t | _ => [] end.
 Definition aop_of (t : Z * Z * Z) : aop :=
@@ -144,8 +146,8 @@ Definition aop_of (t : Z * Z * Z) : aop :=
   else if c =? 4 then ARefCDict (if a =? 0 then None else Some (a, b)) else if c =? 5 then APrefix a
   else if c =? 6 then APledge else if c =? 7 then AResetSession else if c =? 8 then AResetParams
   else if c =? 9 then AStreamCall else if c =? 10 then AStreamEnd else if c =? 11 then ACompress2
-  else if c =? 13 then AGenSeq else ASimple.
-Definition d_api (a : list Z) : list Z := atrace a_fresh (map aop_of (triples a)).
+  else if c =? 13 then AGenSeq else if c =? 14 then ACopyInto else ASimple.
+Definition d_api (a : list Z) : list Z := atrace3 a_fresh (map aop_of (triples a)).
 
 (* 14: one block into [cap] bytes.  args: csize need srcSize strategy cap -> kind (0 refused, 1 raw, 2 compressed), bytes *)
 Definition d_emit (a : list Z) : list Z :=
@@ -158,6 +160,13 @@ Definition d_contig (a : list Z) : list Z :=
   let w1 := fst (window_update (window_init (nthz a 0)) (nthz a 1) (nthz a 2) false) in
   let w2 := fst (window_update w1 (nthz a 3) (nthz a 4) (bz (nthz a 5))) in
   [dictLimit w2; lowLimit w2; idx w2 (nthz a 3); zb (window_hasExtDict w2); idx w2 (nextSrc w2)].
+
+(* 17 (round 3): the stable-input-buffer session (Det/StableIn.v).  args: old(0/1) blockSize, then quadruples src size pos dir(0 continue,
+   1 flush, 2 end) -> per call: accepted, lo - src, hi - src of the bytes handed to the block compressor; then BLOCKSIZE_MAX *)
+Fixpoint quads (l : list Z) : list StableIn.call :=
+  match l with a :: b :: c :: e :: t => StableIn.mkC a b c (if e =? 0 then StableIn.DContinue else if e =? 1 then StableIn.DFlush else StableIn.DEnd) :: quads t | _ => [] end.
+Definition d_stablein (a : list Z) : list Z :=
+  StableIn.strace (bz (nthz a 0)) (nthz a 1) StableIn.s_fresh (quads (skipn 2 a)) ++ [StableIn.BLOCKSIZE_MAX].
 
 Definition dispatch (opcode : Z) (a : list Z) : list Z :=
   if opcode =? 1 then d_reset a
@@ -176,4 +185,5 @@ Definition dispatch (opcode : Z) (a : list Z) : list Z :=
   else if opcode =? 14 then d_emit a
   else if opcode =? 15 then d_mingain a
   else if opcode =? 16 then d_contig a
+  else if opcode =? 17 then d_stablein a
   else [].
